@@ -197,47 +197,66 @@ theorem C20_merge_single_line (endRe : Re) (lines : List Text) :
   unfold mergeLinesWith; exact dedup_nodup _
 
 /-- The year range of a holder's line starts and ends with years that were stated for that
-    holder — the (code point) smallest and largest — and is absent only when no year was stated. -/
+    holder — the numerically smallest and largest (`int(year)`, digits of any script) — and is
+    absent only when no year was stated. -/
 theorem C20_merge_year_span (parsed : List Parsed) (stmt : Text) :
     (yearsOf parsed stmt = [] → mergedYear (yearsOf parsed stmt) = none) ∧
     (∀ y, mergedYear (yearsOf parsed stmt) = some y →
       ∃ lo hi, lo ∈ yearsOf parsed stmt ∧ hi ∈ yearsOf parsed stmt ∧
-        textMin (yearsOf parsed stmt) = some lo ∧ textMax (yearsOf parsed stmt) = some hi ∧
+        yearMin (yearsOf parsed stmt) = some lo ∧ yearMax (yearsOf parsed stmt) = some hi ∧
         (y = lo ∨ y = lo ++ " - ".toList ++ hi)) := by
   constructor
   · intro h; rw [h]; rfl
   · intro y hy
     unfold mergedYear at hy
-    cases hlo : textMin (yearsOf parsed stmt) with
+    cases hlo : yearMin (yearsOf parsed stmt) with
     | none => simp [hlo] at hy
     | some lo =>
-      cases hhi : textMax (yearsOf parsed stmt) with
+      cases hhi : yearMax (yearsOf parsed stmt) with
       | none => simp [hlo, hhi] at hy
       | some hi =>
         simp only [hlo, hhi] at hy
-        refine ⟨lo, hi, textMin_mem hlo, textMax_mem hhi, rfl, rfl, ?_⟩
+        refine ⟨lo, hi, yearMin_mem hlo, yearMax_mem hhi, rfl, rfl, ?_⟩
         split at hy
         · left; simpa using hy.symm
         · right; simpa using hy.symm
 
+/-- **The range spans every year stated for the holder**, numerically: whatever year `y` one of
+    the holder's notices stated, `lo ≤ y ≤ hi` for the two ends of the merged range; and when the
+    merged line shows a single year, every stated year has that value. -/
+theorem C20_merge_year_covers (parsed : List Parsed) (stmt : Text) (lo hi : Text)
+    (hlo : yearMin (yearsOf parsed stmt) = some lo) (hhi : yearMax (yearsOf parsed stmt) = some hi) :
+    (∀ y ∈ yearsOf parsed stmt, yearVal lo ≤ yearVal y ∧ yearVal y ≤ yearVal hi) ∧
+    (mergedYear (yearsOf parsed stmt) = some lo →
+      yearVal lo = yearVal hi ∨ lo = lo ++ " - ".toList ++ hi) := by
+  constructor
+  · intro y hy
+    exact ⟨yearMin_le hlo y hy, yearMax_ge hhi y hy⟩
+  · intro h
+    unfold mergedYear at h
+    simp only [hlo, hhi] at h
+    split at h
+    · rename_i he; left; simpa using he
+    · right; simpa using h.symm
+
 /-- …and a holder with at least one stated year keeps a year. -/
 theorem C20_merge_year_kept (parsed : List Parsed) (stmt : Text) (h : yearsOf parsed stmt ≠ []) :
     (mergedYear (yearsOf parsed stmt)).isSome = true := by
-  have h1 := textMin_isSome h
+  have h1 := yearMin_isSome h
+  have h2 := yearMax_isSome h
   unfold mergedYear
-  cases hlo : textMin (yearsOf parsed stmt) with
+  cases hlo : yearMin (yearsOf parsed stmt) with
   | none => simp [hlo] at h1
   | some lo =>
-    cases hhi : textMax (yearsOf parsed stmt) with
-    | none =>
-      have := textMax_isSome h
-      rw [hhi] at this; cases this
+    cases hhi : yearMax (yearsOf parsed stmt) with
+    | none => simp [hhi] at h2
     | some hi => simp only; split <;> rfl
 
--- Non-vacuity of every hypothesis, on the generated END pattern.
--- (WFHolder of concrete holders on the generated END pattern is evaluated by the compiled driver on every
--- run: op `wfholder`, corpus of harness/props/c20.py; `decide` cannot unfold the well-founded matcher.)
 example : (YearForm.range "2019".toList true true "2021".toList).wf = true := by decide
 example : ("Copyright (C)".toList, CPat.word, " (C)".toList) ∈ prefixShapes := by simp [prefixShapes]
+
+/-- digits of another script are compared by value: the witness that string comparison got wrong -/
+example : mergedYear ["2019".toList, "2023".toList, "２０１６".toList] = some ("２０１６ - 2023".toList) := by decide
+example : yearVal "２０１６".toList = 2016 ∧ yearVal "٢٠٢٠".toList = 2020 := by decide
 
 end C20
